@@ -4,31 +4,32 @@ import (
 	"fmt"
 	"go/ast"
 	"strings"
+	"verif/factgen/fg"
 )
 
 // C26: every NewNonceCache(ttl) construction paired with the tolerance of the validators that
 // feed it, plus the two security constants.
-func init() { register("C26", c26) }
+func main() { fg.Main("C26", c26) }
 
-func c26(repo string, out *Out) error {
-	secFiles, err := parseDir(repo, "internal/cluster/security")
+func c26(repo string, out *fg.Out) error {
+	secFiles, err := fg.ParseDir(repo, "internal/cluster/security")
 	if err != nil {
 		return err
 	}
-	sec := newConstEnv(secFiles)
-	tolExpr, ok := sec.exprs["HMACTimestampTolerance"]
+	sec := fg.NewConstEnv(secFiles)
+	tolExpr, ok := sec.Exprs["HMACTimestampTolerance"]
 	if !ok {
 		return fmt.Errorf("const HMACTimestampTolerance not found in internal/cluster/security")
 	}
-	tol, err := sec.evalInt(tolExpr)
+	tol, err := sec.EvalInt(tolExpr)
 	if err != nil {
 		return fmt.Errorf("HMACTimestampTolerance: %v", err)
 	}
-	evExpr, ok := sec.exprs["nonceCacheEvictInterval"]
+	evExpr, ok := sec.Exprs["nonceCacheEvictInterval"]
 	if !ok {
 		return fmt.Errorf("const nonceCacheEvictInterval not found")
 	}
-	evict, err := sec.evalInt(evExpr)
+	evict, err := sec.EvalInt(evExpr)
 	if err != nil {
 		return err
 	}
@@ -40,13 +41,13 @@ func c26(repo string, out *Out) error {
 	}
 	var sites []site
 
-	envFor := func(files []*File) *constEnv {
-		e := newConstEnv(files)
-		e.pkgs["security"] = sec
+	envFor := func(files []*fg.File) *fg.ConstEnv {
+		e := fg.NewConstEnv(files)
+		e.Pkgs["security"] = sec
 		return e
 	}
 	// tolerances passed to Validate*HMAC* calls in a file set (last argument)
-	validatorTols := func(files []*File, env *constEnv, skip func(string) bool) (map[string]int64, error) {
+	validatorTols := func(files []*fg.File, env *fg.ConstEnv, skip func(string) bool) (map[string]int64, error) {
 		res := map[string]int64{}
 		for _, f := range files {
 			var ferr error
@@ -55,14 +56,14 @@ func c26(repo string, out *Out) error {
 				if !ok {
 					return true
 				}
-				nm := calleeName(c)
+				nm := fg.CalleeName(c)
 				if !strings.HasPrefix(nm, "Validate") || !strings.Contains(nm, "HMAC") || len(c.Args) == 0 {
 					return true
 				}
 				if skip != nil && skip(nm) {
 					return true
 				}
-				v, err := env.evalInt(c.Args[len(c.Args)-1])
+				v, err := env.EvalInt(c.Args[len(c.Args)-1])
 				if err != nil {
 					// a non-constant tolerance (e.g. a handler field) is resolved by the caller
 					res[nm+"@"+f.Path] = -1
@@ -79,7 +80,7 @@ func c26(repo string, out *Out) error {
 	}
 
 	// --- coordinator cache: coordinator.go `c.nonceCache = security.NewNonceCache(X)`
-	clFiles, err := parseDir(repo, "internal/cluster")
+	clFiles, err := fg.ParseDir(repo, "internal/cluster")
 	if err != nil {
 		return err
 	}
@@ -96,10 +97,10 @@ func c26(repo string, out *Out) error {
 				return true
 			}
 			c, ok := as.Rhs[0].(*ast.CallExpr)
-			if !ok || calleeName(c) != "NewNonceCache" || len(c.Args) != 1 {
+			if !ok || fg.CalleeName(c) != "NewNonceCache" || len(c.Args) != 1 {
 				return true
 			}
-			if v, err := clEnv.evalInt(c.Args[0]); err == nil {
+			if v, err := clEnv.EvalInt(c.Args[0]); err == nil {
 				coordTTL = v
 			}
 			return true
@@ -130,7 +131,7 @@ func c26(repo string, out *Out) error {
 	}
 
 	// --- main.go: edge-sync `Replay: security.NewNonceCache(X)` and the cache-invalidate handler
-	mainFiles, err := parseDir(repo, "cmd/arc")
+	mainFiles, err := fg.ParseDir(repo, "cmd/arc")
 	if err != nil {
 		return err
 	}
@@ -141,20 +142,20 @@ func c26(repo string, out *Out) error {
 			switch x := n.(type) {
 			case *ast.KeyValueExpr:
 				if id, ok := x.Key.(*ast.Ident); ok && id.Name == "Replay" {
-					if c, ok := x.Value.(*ast.CallExpr); ok && calleeName(c) == "NewNonceCache" && len(c.Args) == 1 {
-						if v, err := mainEnv.evalInt(c.Args[0]); err == nil {
+					if c, ok := x.Value.(*ast.CallExpr); ok && fg.CalleeName(c) == "NewNonceCache" && len(c.Args) == 1 {
+						if v, err := mainEnv.EvalInt(c.Args[0]); err == nil {
 							edgeTTL = v
 						}
 					}
 				}
 			case *ast.CallExpr:
-				if calleeName(x) == "NewCacheInvalidateHandler" && len(x.Args) >= 5 {
-					if c, ok := x.Args[3].(*ast.CallExpr); ok && calleeName(c) == "NewNonceCache" && len(c.Args) == 1 {
-						if v, err := mainEnv.evalInt(c.Args[0]); err == nil {
+				if fg.CalleeName(x) == "NewCacheInvalidateHandler" && len(x.Args) >= 5 {
+					if c, ok := x.Args[3].(*ast.CallExpr); ok && fg.CalleeName(c) == "NewNonceCache" && len(c.Args) == 1 {
+						if v, err := mainEnv.EvalInt(c.Args[0]); err == nil {
 							ciTTL = v
 						}
 					}
-					if v, err := mainEnv.evalInt(x.Args[4]); err == nil {
+					if v, err := mainEnv.EvalInt(x.Args[4]); err == nil {
 						ciTol = v
 					}
 				}
@@ -170,7 +171,7 @@ func c26(repo string, out *Out) error {
 	}
 	sites = append(sites, site{"cache-invalidate:main.go", ciTol, ciTTL})
 
-	apiFiles, err := parseDir(repo, "internal/api")
+	apiFiles, err := fg.ParseDir(repo, "internal/api")
 	if err != nil {
 		return err
 	}
@@ -215,8 +216,8 @@ func c26(repo string, out *Out) error {
 
 	w := &out.Lean
 	fmt.Fprintf(w, "namespace Arc.Generated.C26\n")
-	fmt.Fprintf(w, "def hmacToleranceNs : Int := %s\n", leanInt(tol))
-	fmt.Fprintf(w, "def evictIntervalNs : Int := %s\n", leanInt(evict))
+	fmt.Fprintf(w, "def hmacToleranceNs : Int := %s\n", fg.LeanInt(tol))
+	fmt.Fprintf(w, "def evictIntervalNs : Int := %s\n", fg.LeanInt(evict))
 	fmt.Fprintf(w, "/-- (site, toleranceNs used by the validators feeding this cache, ttlNs passed to NewNonceCache) -/\n")
 	fmt.Fprintf(w, "def sites : List (String × Int × Int) := [\n")
 	for i, s := range sites {
@@ -224,7 +225,7 @@ func c26(repo string, out *Out) error {
 		if i == len(sites)-1 {
 			sep = ""
 		}
-		fmt.Fprintf(w, "  (%s, %s, %s)%s\n", leanStr(s.Name), leanInt(s.TolNs), leanInt(s.TtlNs), sep)
+		fmt.Fprintf(w, "  (%s, %s, %s)%s\n", fg.LeanStr(s.Name), fg.LeanInt(s.TolNs), fg.LeanInt(s.TtlNs), sep)
 	}
 	fmt.Fprintf(w, "]\nend Arc.Generated.C26\n")
 	out.JSON["hmac_tolerance_ns"] = tol
